@@ -162,6 +162,15 @@ func (d *Decode) PeekInt16() int16 {
 }
 
 func (d *Decode) Copy(size int) []byte {
+	if size < 0 {
+		d.lasterror = ErrOutOfBounds{
+			Min: 0,
+			Max: len(d.data),
+			Got: d.offset + size,
+		}
+		return nil
+	}
+
 	if err := d.HasBytes(size); err != nil {
 		d.lasterror = err
 		return nil
